@@ -1,11 +1,11 @@
 package main
 
 import (
-	"strconv"
 	"fmt"
 	"go/ast"
 	"go/token"
 	"go/types"
+	"strconv"
 	"strings"
 )
 
